@@ -1,5 +1,6 @@
 import ExprModel.Drv.Arith
 import ExprModel.Drv.Code
+import ExprModel.Drv.Lex
 import ExprModel.Drv.Source
 import ExprModel.Drv.Spec
 /-
@@ -13,7 +14,8 @@ def handlers : List (String × (List Sexp → Sexp)) :=
   Drv.arithHandlers ++
   Drv.codeHandlers ++
   Drv.specHandlers ++
-  Drv.sourceHandlers
+  Drv.sourceHandlers ++
+  Drv.lexHandlers
 
 def dispatch (req : Sexp) : Sexp :=
   match req with
